@@ -484,6 +484,38 @@ pub fn exp_c07(e: &mut Exp) {
             }
         }
     }
+    // AnyHash keys: values of different types with identical hash bytes are different elements
+    // (the TypeId is part of the key), so probing with the other type is probing never-inserted keys
+    {
+        use pdatastructs::hash_utils::AnyHash;
+        let (n, p) = (1000usize, 0.02f64);
+        let mut bf = BloomFilter::<AnyHash>::with_properties(n, p);
+        let mut cf = CuckooFilter::<AnyHash, ScriptRng>::with_properties_4(p, n, ScriptRng::new(e.rng.next()));
+        let base = e.rng.next() >> 2;
+        for i in 0..n as u64 {
+            bf.insert(&AnyHash::new(&(base + i))).unwrap();
+            let _ = cf.insert(&AnyHash::new(&(base + i)));
+        }
+        let (mut fb_, mut fc, mut miss) = (0u64, 0u64, 0u64);
+        for i in 0..n as u64 {
+            miss += !bf.query(&AnyHash::new(&(base + i))) as u64;
+            fb_ += bf.query(&AnyHash::new(&((base + i) as i64))) as u64;
+            fb_ += bf.query(&AnyHash::new(&((base + i) as usize))) as u64;
+            fc += cf.query(&AnyHash::new(&((base + i) as i64))) as u64;
+            fc += cf.query(&AnyHash::new(&((base + i) as usize))) as u64;
+        }
+        e.evals += 1;
+        let t = 2.0 * n as f64;
+        if miss > 0 {
+            e.fails.push(format!("bloom keyed by AnyHash: {} of {} inserted u64 keys not reported", miss, n));
+        }
+        if fb_ as f64 / t > 1.3 * p + 5.5 * (1.3 * p / t).sqrt() + 0.01 {
+            e.fails.push(format!("bloom(n={}, p={}) keyed by AnyHash: values of another type with the same bytes answered true with frequency {:.3}", n, p, fb_ as f64 / t));
+        }
+        if fc as f64 / t > p + 5.5 * (p / t).sqrt() + 0.01 {
+            e.fails.push(format!("cuckoo_4(p={}, n={}) keyed by AnyHash: values of another type with the same bytes answered true with frequency {:.3}", p, n, fc as f64 / t));
+        }
+    }
     // acceptance of n distinct inserts at sizes just below 0.95 * 2^j, where the table built by
     // with_properties_4 is at its fullest and inserts need relocations
     let big: &[(usize, f64)] = if e.scale > 1 { &[(62_259, 0.02), (124_518, 0.02), (249_036, 0.02), (31_129, 0.3)] } else { &[(62_259, 0.02), (124_518, 0.02)] };
@@ -904,7 +936,7 @@ pub fn exp_c11(e: &mut Exp) {
     // the same with weighted inserts (integer multiplicities, tiny and huge weights) and every
     // scale function: the centroid count must not depend on how the weight is distributed
     fn td_weighted<S: ScaleFunction + Clone + std::fmt::Debug>(e: &mut Exp, name: &str, sf: S, delta: f64, bl: usize, lens: &[u64]) {
-        for wmode in 0..5u64 {
+        for wmode in 0..8u64 {
             let mut d = TDigest::new(sf.clone(), bl);
             let base = crate::alloc::live();
             let doc = 16 * (delta as usize + 3 + bl + 1) * 2;
@@ -918,9 +950,19 @@ pub fn exp_c11(e: &mut Exp) {
                         2 => 0.5 + sm.f01(),
                         // every weight below 1 (a sample count derived from the weights stays 0)
                         3 => 0.05 + 0.9 * sm.f01(),
-                        _ => if sm.chance(1, 2) { 1e-6 } else { 0.25 },
+                        4 => if sm.chance(1, 2) { 1e-6 } else { 0.25 },
+                        // subnormal weights: the total weight stays below 1/f64::MAX
+                        5 => 1e-320,
+                        _ => 1.0,
                     };
-                    d.insert_weighted(sm.f01() * 100.0, w);
+                    // modes 6 and 7: unit weights in ascending / descending order (every flush lies to
+                    // one side of all existing centroids)
+                    let x = match wmode {
+                        6 => i as f64,
+                        7 => -(i as f64),
+                        _ => sm.f01() * 100.0,
+                    };
+                    d.insert_weighted(x, w);
                     i += 1;
                 }
                 let _ = d.quantile(0.5);
@@ -1079,6 +1121,29 @@ pub fn exp_c11(e: &mut Exp) {
             check_mem(e, &format!("lossy width={} after {} adds", width, n), crate::alloc::live() - base, doc, 512);
         }
         drop(l);
+        // second life: a long first stream, clear(), then a shorter stream of distinct elements -- the
+        // table is bounded by the second stream alone
+        {
+            let mut l = LossyCounter::<u64>::with_width(width);
+            let base = crate::alloc::live();
+            for i in 0..lens[lens.len() - 1].min(200_000) {
+                l.add(i % 7 + if i % 3 == 0 { i } else { 0 });
+            }
+            l.clear();
+            drop(base);
+            let n2 = 20 * width as u64 + 3;
+            for i in 0..n2 {
+                l.add(5_000_000 + i);
+            }
+            let b = (n2 as usize + width - 1) / width;
+            let hsum: f64 = (1..=b).map(|x| 1.0 / x as f64).sum();
+            let entries = (width as f64 * (hsum + 1.0)) as usize;
+            let tracked = l.query(0.0).count();
+            e.evals += 1;
+            if tracked > entries {
+                e.fails.push(format!("lossy width={}: {} entries tracked after clear() and {} distinct adds (bound {})", width, tracked, n2, entries));
+            }
+        }
         // window-aligned stream: a hot element on the first and last position of every window
         let mut l = LossyCounter::<u64>::with_width(width);
         let base = crate::alloc::live();
@@ -1097,6 +1162,82 @@ pub fn exp_c11(e: &mut Exp) {
     }
 }
 
+
+/// a stateless hasher: serde encodes a unit struct as `null`
+#[derive(Clone, Copy, Debug, Default, PartialEq, Eq, serde::Serialize, serde::Deserialize)]
+pub struct UnitBH;
+impl std::hash::BuildHasher for UnitBH {
+    type Hasher = std::collections::hash_map::DefaultHasher;
+    fn build_hasher(&self) -> Self::Hasher {
+        std::collections::hash_map::DefaultHasher::new()
+    }
+}
+
+/// C20 beyond `from_str` on the scripted hasher: a hasher that serialises to `null`, and
+/// `Deserialize::deserialize_in_place` into an existing sketch of another precision.
+pub fn exp_c20(e: &mut Exp) {
+    use serde::Deserialize;
+    for b in [4usize, 7, 12, 18] {
+        let mut h = HyperLogLog::<u64, UnitBH>::with_hash(b, UnitBH);
+        for i in 0..(3u64 << b.min(10)) {
+            h.add(&(i ^ e.rng.next()));
+        }
+        let doc = serde_json::to_string(&h).unwrap();
+        e.evals += 1;
+        match serde_json::from_str::<HyperLogLog<u64, UnitBH>>(&doc) {
+            Err(err) => e.fails.push(format!("hll b={} with a unit-struct hasher: own serialisation rejected: {}", b, err)),
+            Ok(mut g) => {
+                if g != h || g.count() != h.count() {
+                    e.fails.push(format!("hll b={} with a unit-struct hasher: round trip differs", b));
+                }
+                g.add(&77);
+                h.add(&77);
+                if g != h {
+                    e.fails.push(format!("hll b={} with a unit-struct hasher: round-tripped sketch reacts differently to add", b));
+                }
+            }
+        }
+    }
+    // deserialize_in_place: same verdict and same result as from_str, whatever the receiver held
+    for (bd, br) in [(4usize, 5usize), (5, 4), (6, 6), (12, 4), (4, 12)] {
+        let mut src = HyperLogLog::<u64, crate::script::ScriptBH>::with_hash(bd, crate::script::ScriptBH::xor());
+        for _ in 0..40 {
+            src.add_hashed(e.rng.next());
+        }
+        let good = serde_json::to_string(&src).unwrap();
+        // corrupt variants: b of the receiver with the source's registers, one register too few
+        let regs: Vec<String> = src.registers().iter().map(|x| x.to_string()).collect();
+        let bhs = "{\"mul\":1,\"add\":0,\"sh\":64,\"seed\":0}";
+        let wrong_b = format!("{{\"registers\":[{}],\"b\":{},\"buildhasher\":{}}}", regs.join(","), br, bhs);
+        let short = format!("{{\"registers\":[{}],\"b\":{},\"buildhasher\":{}}}", regs[1..].join(","), bd, bhs);
+        for doc in [good.clone(), wrong_b, short] {
+            let mut place = HyperLogLog::<u64, crate::script::ScriptBH>::with_hash(br, crate::script::ScriptBH::xor());
+            place.add_hashed(e.rng.next());
+            let want = serde_json::from_str::<HyperLogLog<u64, crate::script::ScriptBH>>(&doc);
+            let mut de = serde_json::Deserializer::from_str(&doc);
+            let r = std::panic::catch_unwind(std::panic::AssertUnwindSafe(|| {
+                let r = HyperLogLog::<u64, crate::script::ScriptBH>::deserialize_in_place(&mut de, &mut place);
+                r.is_ok()
+            }));
+            e.evals += 1;
+            match (r, want) {
+                (Err(_), _) => e.fails.push(format!("hll deserialize_in_place (document b={}, receiver b={}) panics", bd, br)),
+                (Ok(true), Ok(w)) => {
+                    let sane = place.registers().len() == 1usize << place.b();
+                    if place != w || !sane {
+                        e.fails.push(format!("hll deserialize_in_place (document b={}, receiver b={}) yields another sketch than from_str (b={}, {} registers)", bd, br, place.b(), place.registers().len()));
+                    } else {
+                        place.add_hashed(u64::MAX);
+                        let _ = place.count();
+                    }
+                }
+                (Ok(true), Err(_)) => e.fails.push(format!("hll deserialize_in_place accepts a document that from_str rejects (document b={}, receiver b={}): b={}, {} registers", bd, br, place.b(), place.registers().len())),
+                (Ok(false), Ok(_)) => e.fails.push(format!("hll deserialize_in_place rejects a valid document (document b={}, receiver b={})", bd, br)),
+                (Ok(false), Err(_)) => {}
+            }
+        }
+    }
+}
 
 // ---------------------------------------------------------------------------------------------
 // Glue around the modelled core: the convenience constructors with the default SipHash hasher
@@ -1128,6 +1269,50 @@ pub fn exp_glue(e: &mut Exp, prop: &str) {
                 e.fails.push(format!("hll b={}: Extend of {} keys gives other registers / count than repeated add (count {} / {} / {})", b, n, a.count(), c.count(), c2.count()));
             }
         }
+    }
+    if prop == "C05" {
+        // a stream tens of millions of times longer than k: ln(1 - k/n) must keep its precision, the
+        // sample must not collapse onto the most recent items
+        let n = 120_000_000u64;
+        let mut last = 0u64;
+        let runs = 4u64;
+        let mut pos_sum = 0.0f64;
+        for s in 0..runs {
+            let mut r = ReservoirSampling::<u64, ScriptRng>::new(1, ScriptRng::new(e.rng.next() ^ s));
+            for i in 0..n {
+                r.add(i);
+            }
+            let x = r.reservoir()[0];
+            last += (x >= n - 1000) as u64;
+            pos_sum += x as f64 / n as f64;
+            e.evals += 1;
+        }
+        if last > 0 {
+            e.fails.push(format!("reservoir k=1, n={}: {} of {} runs sampled one of the last 1000 items (probability 8e-6 each)", n, last, runs));
+        }
+        let _ = pos_sum;
+    }
+    if prop == "C10" {
+        // counts beyond 2^24 (where f32 stops being exact) and a newcomer that is more frequent by one
+        use pdatastructs::topk::cmsheap::CMSHeap;
+        let cms = CountMinSketch::<u64>::with_params(64, 2);
+        let mut tk = CMSHeap::new(1, cms);
+        // 2^24 + 1 is the first integer an f32 cannot hold (it rounds to 2^24)
+        let big = 1u64 << 24;
+        for _ in 0..big {
+            tk.add(1u64);
+        }
+        for _ in 0..big + 1 {
+            tk.add(2u64);
+        }
+        e.evals += 1;
+        let got: Vec<u64> = tk.iter().collect();
+        if got != vec![2u64] {
+            e.fails.push(format!("cmsheap k=1, collision-free sketch: element 1 added {} times, element 2 added {} times, iter() yields {:?}", big, big + 1, got));
+        }
+    }
+    if prop == "C20" {
+        exp_c20(e);
     }
     for _ in 0..rounds {
         let keys: Vec<u64> = (0..60).map(|_| e.rng.below(200)).collect();
@@ -1318,6 +1503,7 @@ pub fn exp_glue(e: &mut Exp, prop: &str) {
                         e.fails.push(format!("reservoir of {} items k={}: after clear and one add holds {} items", what, k, r.reservoir().len()));
                     }
                 }
+                res_items(e, "8 KiB", k.min(6), seed, |n| [n; 1024], |a, b| a[0] == b && a[1023] == b);
                 res_items(e, "zero-sized", k, seed, |_| (), |_, _| true);
                 res_items(e, "zero-length array", k, seed, |_| [0u64; 0], |_, _| true);
                 res_items(e, "wide", k, seed, |n| [n; 40], |a, b| a[0] == b && a[39] == b);
